@@ -966,6 +966,7 @@ func main() {
 	r := vh.NewRng(cfg.Seed)
 	enum := genEnumerated(cfg.Thorough())
 	vh.Emit(cfg, "enum", header, footer, runAll(cfg, enum, par), map[string]interface{}{"exhaustive": true})
+	vh.Emit(cfg, "orphans", header, footer, runAll(cfg, genOrphans(cfg.Thorough()), par), map[string]interface{}{"exhaustive": true})
 	guarded := genRandom(r.Fork(), cfg.Thorough(), true)
 	vh.Emit(cfg, "guarded", header, footer, runAll(cfg, guarded, par), nil)
 	random := genRandom(r.Fork(), cfg.Thorough(), false)
